@@ -30,11 +30,31 @@ pub fn gen_rx_ext(rng: &mut Rng, depth: u32) -> Rx {
 }
 
 pub fn gen_case(rng: &mut Rng, idx: usize, thorough: bool) -> Value {
-    if idx % 8 == 7 {
-        // %regex substring: chunks; the spec is the alternation of all concatenations chunks[n..m]
-        let n = 1 + rng.below(5);
-        let pool = ["ab", "c", " ", "é", "x", "日本", "ab", "."];
-        let chunks: Vec<String> = (0..n).map(|_| rng.pick(&pool).to_string()).collect();
+    if idx < 2 {
+        // exhaustive sweep of `%regex substring_chars` over every string over a two-letter alphabet
+        // (idx 0: ASCII, idx 1: two-byte characters) up to a length bound, judged by brute force
+        return json!({"substring_sweep": if idx == 0 { "ab" } else { "éß" }, "maxsrc": if thorough { 11 } else { 9 }, "form": 4, "seed": 1, "maxlen": 0});
+    }
+    if idx % 4 == 3 {
+        // %regex substring: chunks; the spec is the alternation of all concatenations chunks[n..m].
+        // Repetitive sources over tiny alphabets exercise the suffix-automaton clone path.
+        let chunks: Vec<String> = match (idx / 4) % 3 {
+            0 => {
+                let n = 1 + rng.below(5);
+                let pool = ["ab", "c", " ", "é", "x", "日本", "ab", "."];
+                (0..n).map(|_| rng.pick(&pool).to_string()).collect()
+            }
+            1 => {
+                let alpha: &[&str] = if rng.chance(1, 3) { &["é", "ß"] } else if rng.chance(1, 2) { &["a", "b"] } else { &["a", "b", "c"] };
+                let n = 5 + rng.below(if thorough { 14 } else { 9 });
+                (0..n).map(|_| rng.pick(alpha).to_string()).collect()
+            }
+            _ => {
+                let pool = ["na", "ba", "na", "€", "あ", "na"];
+                let n = 4 + rng.below(6);
+                (0..n).map(|_| rng.pick(&pool).to_string()).collect()
+            }
+        };
         return json!({"substring": chunks, "form": 3, "seed": rng.next() % 1_000_000_000, "maxlen": if thorough { 5 } else { 4 }});
     }
     let r = gen_rx_ext(rng, 3);
@@ -130,7 +150,63 @@ fn test_strings(rng: &mut Rng, r: &Rx, maxlen: usize) -> Vec<Vec<u8>> {
     out
 }
 
+fn run_substring_sweep(case: &Value, rep: &mut Report) {
+    let alpha: Vec<String> = case["substring_sweep"].as_str().unwrap().chars().map(|c| c.to_string()).collect();
+    let maxsrc = case["maxsrc"].as_u64().unwrap() as usize;
+    let sb = vocab::single_byte_words();
+    let eos = sb.len() as u32 - 1;
+    let Ok(w1) = World::new(sb, eos, false, None) else { rep.skip("world"); return; };
+    let mut sources: Vec<Vec<usize>> = vec![vec![]];
+    let mut frontier: Vec<Vec<usize>> = vec![vec![]];
+    for _ in 0..maxsrc {
+        let mut next = vec![];
+        for s in &frontier { for a in 0..alpha.len() { let mut x = s.clone(); x.push(a); next.push(x); } }
+        sources.extend(next.iter().cloned());
+        frontier = next;
+    }
+    rep.exhaustive = true;
+    for src in sources.iter().filter(|s| s.len() >= 2) {
+        rep.evaluations += 1;
+        let text: String = src.iter().map(|i| alpha[*i].clone()).collect();
+        let g = Gram::Lark(format!("start: T\nT: %regex {}\n", json!({"substring_chars": text})));
+        let base = w1.matcher(&g);
+        if base.is_error() {
+            rep.fail("spec", "c04:substring-rejected", format!("substring_chars {text:?} rejected"), json!({"case": case, "source": text}));
+            return;
+        }
+        // members: every contiguous run of characters (and the empty string); non-members: a few mutations
+        let chars: Vec<&String> = src.iter().map(|i| &alpha[*i]).collect();
+        let mut members: std::collections::HashSet<Vec<u8>> = Default::default();
+        members.insert(vec![]);
+        for a in 0..chars.len() { for b in a + 1..=chars.len() { members.insert(chars[a..b].iter().flat_map(|c| c.as_bytes().to_vec()).collect()); } }
+        let mut tests: Vec<Vec<u8>> = members.iter().cloned().collect();
+        for a in 0..alpha.len() { for b in 0..alpha.len() { for c in 0..alpha.len() {
+            tests.push([alpha[a].as_bytes(), alpha[b].as_bytes(), alpha[c].as_bytes()].concat());
+            tests.push([alpha[a].as_bytes(), alpha[b].as_bytes()].concat());
+        } } }
+        for t in tests {
+            let exp = members.contains(&t);
+            let mut m = base.deep_clone();
+            let toks: Vec<u32> = t.iter().map(|b| *b as u32).collect();
+            let k = if toks.is_empty() { 0 } else { m.validate_tokens(&toks).unwrap_or(0) };
+            let got = k == t.len() && (toks.is_empty() || m.consume_tokens(&toks).is_ok()) && (m.is_accepting().unwrap_or(false) || m.is_stopped() && format!("{:?}", m.stop_reason()) == "NoExtension");
+            // viable prefix: t is a prefix of some member
+            let viable = members.iter().any(|mm| mm.len() >= t.len() && mm[..t.len()] == t[..]);
+            if got != exp || (!t.is_empty() && (k == t.len()) != viable) {
+                rep.fail("spec", "c04:substring-language", format!("substring_chars {text:?}: {:?} accepted={got} (expected {exp}), viable prefix={} (expected {viable})", String::from_utf8_lossy(&t), k == t.len()), json!({"case": case, "source": text, "string": vocab::hex(&t)}));
+                return;
+            }
+        }
+        rep.nontrivial(format!("sweep|{text}"));
+    }
+    rep.sample(json!({"substring_sweep": case["substring_sweep"], "sources": sources.len()}));
+}
+
 pub fn run_case(_ctx: &Ctx, case: &Value, tag: usize, rep: &mut Report, mb: &mut ModelBatch) {
+    if case.get("substring_sweep").is_some() {
+        run_substring_sweep(case, rep);
+        return;
+    }
     let form = case["form"].as_u64().unwrap() as usize;
     let (r, sub_g) = if let Some(chunks) = case.get("substring").and_then(|c| c.as_array()) {
         let ch: Vec<String> = chunks.iter().map(|c| c.as_str().unwrap().to_string()).collect();
@@ -158,7 +234,13 @@ pub fn run_case(_ctx: &Ctx, case: &Value, tag: usize, rep: &mut Report, mb: &mut
     }
     rep.evaluations += 1;
     rep.count(&format!("form.{form}"));
-    let strings = test_strings(&mut rng, &r, maxlen);
+    let mut strings = test_strings(&mut rng, &r, maxlen);
+    if let Rx::Alt(alts) = &r {
+        if case.get("substring").is_some() {
+            // every member of the finite language
+            for a in alts { if let Rx::Lit(s) = a { strings.push(s.as_bytes().to_vec()); } }
+        }
+    }
     let rid = tag;
     mb.push_guard(format!("rx def {rid} {}", byte_sexp(&r)), "ok*".into(), tag);
     // implementation answers: (viable prefix length, accepted)
